@@ -12,3 +12,5 @@ import GoNeat.Props.C09
 import GoNeat.Props.C09Exact
 import GoNeat.Props.C10
 import GoNeat.Props.C20
+import GoNeat.Props.C19
+import GoNeat.Props.C19Exact
